@@ -12,7 +12,7 @@ For one property P:
 A session on which the implementation hangs is compared with the model run on generous fuel: a model that also
 diverges (out of fuel in wait_on_input) is finding F14; a model that terminates is a violation.
 """
-import json, copy
+import os, json, copy
 import lib, screen_impl, screen_gen
 
 EV = {0: 'Enq', 1: 'Dropped', 2: 'Dispatch', 3: 'Requeue', 4: 'Handler', 5: 'HandlerEnd', 6: 'DispatchEnd',
@@ -160,6 +160,12 @@ def gen_cases(prop, tier, rng):
         # the model runs on the specs of coq/theories/AdvWidgets.v (harness/adv_specs.py, checks/adv_corr.py)
         for k in range(n // 4):
             cases.append(screen_gen.gen_adv_case(rng, with_error=True, with_password=(k % 3 == 0)))      # PasswordDialog: an answer that is neither True, False nor None
+        # ... and the hand-written stock-dialog sessions of checks/adv_corr.py (every dialog as quit dialog / pushed modally /
+        # scheduled, rejection streaks, the quit dialog that is never rendered, the remembered answer)
+        import importlib.util
+        sp = importlib.util.spec_from_file_location("adv_corr", os.path.join(lib.VERIF, "checks", "adv_corr.py"))
+        adv_corr = importlib.util.module_from_spec(sp); sp.loader.exec_module(adv_corr)
+        cases = adv_corr.fixed_cases() + cases
     return cases
 
 
